@@ -24,12 +24,14 @@ import (
 	"fmt"
 	"os"
 	"path/filepath"
+	"strings"
 )
 
 func main() {
 	repo := flag.String("repo", "/repo", "directory of package bloomsearch")
 	out := flag.String("out", "", "coq/Generated directory")
 	pkgName := flag.String("package", "bloomsearch", "package name to scan")
+	only := flag.String("kernels", "", "self-test: translate only these functions (comma separated) and write Kernels.v alone")
 	flag.Parse()
 	if *out == "" {
 		fmt.Fprintln(os.Stderr, "usage: bstranslate -repo DIR -out GENERATED_DIR")
@@ -43,6 +45,24 @@ func main() {
 	if err := os.MkdirAll(*out, 0o755); err != nil {
 		fmt.Fprintln(os.Stderr, "bstranslate:", err)
 		os.Exit(1)
+	}
+	if *only != "" {
+		kt := newKtrans(pkg)
+		var specs []kernelSpec
+		for _, f := range strings.Split(*only, ",") {
+			specs = append(specs, kernelSpec{name: strings.ReplaceAll(f, ".", "_"), goFunc: f})
+		}
+		text, notes := kt.emitKernels(specs)
+		for _, sp := range specs {
+			if err, bad := notes[sp.name]; bad {
+				fmt.Printf("kernel %s: not translated: %v\n", sp.name, err)
+			}
+		}
+		if _, err := writeIfChanged(filepath.Join(*out, "Kernels.v"), text); err != nil {
+			fmt.Fprintln(os.Stderr, "bstranslate:", err)
+			os.Exit(1)
+		}
+		return
 	}
 	consts, err := emitConsts(pkg)
 	if err != nil {
